@@ -634,6 +634,38 @@ func ruleC16Only(r *Run) {
 		})
 	}
 	r.Check("C16-USES", "(*Router).Resource:Uses() map is read-only", res.Pos(), nW == 0, "the per-action middleware map is only read")
+	// the Uses hook is looked up on the same reflect.Value as the actions: reflect's method set of the struct VALUE
+	// (cv.Elem()) lacks pointer-receiver methods, so a lookup there silently finds no Uses() on controllers that
+	// declare it on the pointer, while their actions (looked up on the pointer) are registered
+	{
+		var usesRecv, actRecv []ssa.Value
+		for _, f := range withAnon(res) {
+			eachInstr(f, func(in ssa.Instruction) {
+				c, ok := in.(*ssa.Call)
+				if !ok || calleeName(c) != "(reflect.Value).MethodByName" || len(c.Call.Args) < 2 {
+					return
+				}
+				if k, isC := constString(c.Call.Args[1]); isC {
+					if k == "Uses" {
+						usesRecv = append(usesRecv, c.Call.Args[0])
+					}
+					return
+				}
+				actRecv = append(actRecv, c.Call.Args[0])
+			})
+		}
+		if len(usesRecv) > 0 && len(actRecv) > 0 {
+			same := true
+			for _, u := range usesRecv {
+				for _, a := range actRecv {
+					if canon(u) != canon(a) {
+						same = false
+					}
+				}
+			}
+			r.Check("C16-USES", "(*Router).Resource:Uses looked up like the actions", res.Pos(), same, map[bool]string{true: "MethodByName(\"Uses\") and MethodByName(action) are applied to the same reflect.Value", false: "the Uses() hook and the action methods are looked up on different reflect.Values (pointer vs. Elem()): a controller that declares Uses() on the pointer receiver gets its actions registered without their middleware"}[same])
+		}
+	}
 	r.Floor("C16-USES", 2)
 	// C16-REJECT
 	gcalls := callsToFn(res, grp)
